@@ -26,6 +26,10 @@ being bits 8i..8i+7 of the value — whatever conversions spell it (`to/from_{le
 arrays). **bounds**: the ordering oracle also answers comparisons whose difference is a difference of two endpoint
 roles (`len > area_end - address`). **invariant**: construction sites by MIR provenance; the resize function on the
 final values of every success path per size class (sequence model shared with C10.resize).""",
+"C09": """*As built (round 3).* `elf_flags_to_prot` is evaluated for the eight R/W/X combinations alone and together with every
+other p_flags bit (29 single bits and all of them): OS/processor-specific flag bits are legal and must not reach the
+permission mask (seeded change S34). The three accessors are found by role (byte accessors by public name, the fetch
+accessor as the `(&self, u64) -> Result<Vec<u8>>` callee of the decoder front end).""",
 "C10": """*As built (round 2).* **resize**, new **atomic** and **invariant** are decided on final values: `mem_resize_section` is
 interpreted over the byte-sequence model once per class new < old, new = old, new > old; on every success path exactly
 one area changes, its contents normalise to old[..min] ++ zeros(new - min), its length is the requested size and
@@ -38,7 +42,9 @@ Unhandled goes on to the next hook. **guard** interprets private `&self` helpers
 same guard).""",
 "C20": """*As built.* **sources** accepts rand calls in closures of the two seeding functions and in the pipe() hook (found by
 the syscall number it selects); **reads** is conservative by design: any register read in `step` itself other than RIP
-is reported (seeded change S20 printed `used_registers()` into the error text).""",
+is reported (seeded change S20 printed `used_registers()` into the error text); the same holds for the cone that builds
+error texts and traces (byte accessors, fetch, decoder front end, the error-hint builder, `trace`, `call_stack`,
+`resolve_symbol`): a call-graph who-may-call rule with the register argument resolved to a constant (seeded change S36).""",
 "C03": """*As built.* `target` additionally requires every register, address and memory term the target is computed from to be
 an *entry-state* version (read before the handler's first write): CALL r/m64 that resolves its operand after the push
 is reported (seeded change S02).""",
@@ -70,12 +76,15 @@ per class count < len, count = len, count > len. **split**: delivered = B[..m], 
 class's minimum; write: contents[key] := B ++ G (G when missing), RAX = RDX. **keys**: read touches only contents[RDI];
 write only contents[write_ends[RDI]]; pipe() writes read_ends[R] = W, write_ends[W] = R, contents[R] = empty with R, W
 distinct fresh draws and hands [R, W] to the guest at RDI, RDI+8. Calls outside the model make the instance undecided
-and trip the floor (6 Handled paths decided).""",
+and trip the floor (6 Handled paths decided). **atomic** (round 3): with failing guest memory accesses switched on,
+every path on which one fails returns that error and leaves every map entry at its entry value (seeded change S32).""",
 "C15": """*As built (round 2).* **load** compares the *image* of the area as a sequence expression: zero-filled base of a
 length derived from `p_memsz` only, plus overlays at offset 0 that normalise to `segment_data(segment)` (library fact:
 its length is `p_filesz`), or the file bytes alone when the path ties the rounded `p_memsz` to `p_filesz`; events are
 split per program header visited. **round** (new): the zero area's length L(p_memsz) satisfies p_memsz ≤ L ≤ next page
-boundary for all 4 096 residues and representative page counts admitted by the path's own guards (seeded change S16).""",
+boundary for all 4 096 residues and representative page counts admitted by the path's own guards (seeded change S16).
+**others** (round 3): a program header decided not to be PT_LOAD changes neither permissions nor bytes of an area it did
+not create itself (seeded change S33, PT_GNU_RELRO at a PT_LOAD's address).""",
 "C16": """*As built (round 2).* **arith** additionally carries relational slice/copy obligations (`bound <= length` must be
 tied on the path; seeded change S17: `data[..content.len()]` on a `vec![0; memsz]`), and **alloc** treats `vec![e; n]` like
 the zero-fill primitive.""",
